@@ -1,5 +1,5 @@
 /-
-C04 — Persisted state reads back identically (read side).
+C04 — Persisted state reads back identically.
 
 Model: `Gossamer.TrieHeap` (`writeDirty`, `MTrie.writeDirty`), `Gossamer.TrieHeap.loadF`,
 `getFromDB`/`gfdF` (`TrieHeapDB`, after the `fix:` commits), with the node decoder of C07.
@@ -15,8 +15,15 @@ Model: `Gossamer.TrieHeap` (`writeDirty`, `MTrie.writeDirty`), `Gossamer.TrieHea
 * `C04_absent`           — a key that the in-memory trie does not hold reads as absent (nil, no error).
 * `C04_atNode`           — the recursion `getFromDBAtNode` against `retrieve`, at any node.
 
-The write side (`WriteDirty` incl. incremental writes of successive snapshots, `Load`) is tied to the
-Go code by the differential run only; see the level note.
+Write side (heap model `TrieHeap`):
+* `C04_writeDirty_stores`, `C04_writeDirty_coherent`, `C04_writeDirty_getFromDB` — `WriteDirty` on a
+                           trie with coherent caches establishes `Sto`, keeps coherence, and `GetFromDB`
+                           then reads back every key.
+* `C04_incremental_inv`, `C04_incremental_partial` — along lines `(Put|Delete|ClearPrefix|SetVersion)*;
+                           WriteDirty; Snapshot; …` the caches stay coherent ("clean ⇒ already in the
+                           database"), so every later `WriteDirty` persists a state that reads back
+                           identically.  Main trie; `ClearPrefixLimit`, child tries and `Load` are tied
+                           to the Go code by the differential run only; see the level note.
 -/
 import Gossamer.Lib.C04Stored
 import Gossamer.Lib.C04WriteMain
@@ -103,14 +110,18 @@ theorem C04_writeDirty_getFromDB (H : Bytes → Bytes) (hH : ∀ m, (H m).length
 
 /-! ### incremental writes along a line of snapshots -/
 
-/-- The states of ONE line of trie handles on the heap model, from `NewEmptyTrie()`: `Put`,
-    `SetVersion`, `Snapshot` (the line continues with the snapshot, as dot/state does), `WriteDirty`;
-    the last component is the pure trie (`Trie.put` of the same keys and values) the handle stands
-    for.  `depth T ≤ bigFuel` is the fuel of the model's recursions (100000 levels). -/
+/-- The states of ONE line of trie handles on the heap model, from `NewEmptyTrie()`: `Put`, `Delete`,
+    `ClearPrefix`, `SetVersion`, `Snapshot` (the line continues with the snapshot, as dot/state
+    does), `WriteDirty`; the last component is the pure trie (`Trie.put`/`delete`/`clearPrefix` of the
+    C02 model on the same arguments) the handle stands for.  `depth T ≤ bigFuel` is the fuel of the model's recursions (100000 levels). -/
 inductive Line (H : Bytes → Bytes) : Heap → DB → Handle → Trie → Prop
   | init (ver : Ver) : Line H Heap.empty [] { root := none, gen := 0, ver := ver } .nil
   | put {hp : Heap} {db : DB} {h : Handle} {T : Trie} (l : Line H hp db h T) (hd : depth T ≤ bigFuel)
       (k v : Bytes) : Line H (put H hp h k v).1 db (put H hp h k v).2 (Trie.put T k v)
+  | delete {hp : Heap} {db : DB} {h : Handle} {T : Trie} (l : Line H hp db h T) (hd : depth T ≤ bigFuel)
+      (k : Bytes) : Line H (delete H hp h k).1 db (delete H hp h k).2 (Trie.delete T k)
+  | clearPrefix {hp : Heap} {db : DB} {h : Handle} {T : Trie} (l : Line H hp db h T) (hd : depth T ≤ bigFuel)
+      (p : Bytes) : Line H (clearPrefix H hp h p).1 db (clearPrefix H hp h p).2 (Trie.clearPrefix T p)
   | setVersion {hp : Heap} {db : DB} {h : Handle} {T : Trie} (l : Line H hp db h T) (ver : Ver) :
       Line H hp db { h with ver := ver } T
   | snapshot {hp : Heap} {db : DB} {h : Handle} {T : Trie} (l : Line H hp db h T) :
@@ -118,7 +129,7 @@ inductive Line (H : Bytes → Bytes) : Heap → DB → Handle → Trie → Prop
   | writeDirty {hp : Heap} {db : DB} {h : Handle} {T : Trie} (l : Line H hp db h T) (hd : depth T ≤ bigFuel) :
       Line H (writeDirty H hp db h).1 (writeDirty H hp db h).2 h T
 
-/-- **Cache coherence of the copy-on-write `Put` as an invariant.**  In every state of a line the
+/-- **Cache coherence of the copy-on-write mutators (`Put`, `Delete`, `ClearPrefix`) as an invariant.**  In every state of a line the
     handle's view is a tree that represents `T`, no cell of the handle's own generation is shared
     between two positions, and every clean cell carries the Merkle value of its sub-trie, which the
     database already stores ("clean ⇒ already in the database"). -/
@@ -127,29 +138,33 @@ theorem C04_incremental_inv (H : Bytes → Bytes) (hH : ∀ m, (H m).length = 32
   induction l with
   | init ver => exact cinv_init H ver
   | put _ hd k v ih => exact put_cinv H hH ih (Nat.le_succ_of_le hd) k v
+  | delete _ hd k ih => exact delete_cinv H hH ih (Nat.le_succ_of_le hd) k
+  | clearPrefix _ hd p ih => exact clearPrefix_cinv H hH ih (Nat.le_succ_of_le hd) p
   | setVersion _ ver ih => exact setVersion_cinv H ih ver
   | snapshot _ ih => exact snapshot_cinv H ih
   | writeDirty _ hd ih => exact writeDirty_cinv H hH ih hd
 
-/-- **Incremental persistence (main trie; mutator `Put`).**  At ANY point of a line of snapshots —
+/-- **Incremental persistence (main trie; `ClearPrefixLimit` and child tries not covered).**  At ANY point of a line of snapshots —
     whatever was written and persisted before — `WriteDirty` followed by `GetFromDB` on the root hash
-    that `Hash()` reports returns the in-memory value of EVERY key: the nodes that `WriteDirty` skips
-    because they are clean are already in the database.  Exceptions are spelled out: two DIFFERENT
+    that `Hash()` reports returns the in-memory `Get` of EVERY key (which is `Get` of the pure trie):
+    the nodes that `WriteDirty` skips because they are clean are already in the database.  Exceptions are spelled out: two DIFFERENT
     stored values with the same hash, or a non-empty trie whose root hashes to the hash of the empty
     trie's encoding `[0]`. -/
 theorem C04_incremental_partial (H : Bytes → Bytes) (hH : ∀ m, (H m).length = 32) {hp : Heap} {db : DB}
     {h : Handle} {T : Trie} (l : Line H hp db h T) (hd : depth T ≤ bigFuel) (hsz : SizeOK T) (key : Bytes) :
     ∃ root, (hash H (writeDirty H hp db h).1 h).2 = some root ∧
-      (Collision H (writeDirty H hp db h).2 ∨ (T ≠ .nil ∧ root = H [0]) ∨
-        getFromDB H (writeDirty H hp db h).2 root key = some (Trie.get T key)) := by
+      (Collision H (writeDirty H hp db h).2 ∨ (h.root ≠ none ∧ root = H [0]) ∨
+        getFromDB H (writeDirty H hp db h).2 root key = some (get hp h.root key)) ∧
+      get hp h.root key = Trie.get T key := by
   have inv := C04_incremental_inv H hH l
+  rw [cinv_get inv key]
   have hroot := inv.root
   cases hr : h.root with
   | none =>
     rw [hr] at hroot
     have hT : T = .nil := hroot
     subst hT
-    refine ⟨H [0], ?_, Or.inr (Or.inr ?_)⟩
+    refine ⟨H [0], ?_, Or.inr (Or.inr ?_), rfl⟩
     · show (hashRoot H _ h.root).2 = _
       rw [hr]; rfl
     · rw [C04_empty]; rfl
@@ -158,7 +173,7 @@ theorem C04_incremental_partial (H : Bytes → Bytes) (hH : ∀ m, (H m).length 
     obtain ⟨N, fp, hti, _⟩ := hroot
     obtain ⟨_, _, _, h4, h5, _⟩ := writeDirty_stoG H hH hp db h r0 hr T N hti.rep hti.coh hd
     have hcl := (Coh.clean h4 (HRep.ne_nil hti.rep) h5).1
-    refine ⟨H (TrieCodec.encode H N), ?_, ?_⟩
+    refine ⟨H (TrieCodec.encode H N), ?_, ?_, rfl⟩
     · show (hashRoot H _ h.root).2 = _
       rw [hr]
       show (calcRootMV H _ r0).2 = _
@@ -167,7 +182,7 @@ theorem C04_incremental_partial (H : Bytes → Bytes) (hH : ∀ m, (H m).length 
     · rcases C04_writeDirty_getFromDB H hH hp db h r0 hr T N hti.rep hti.coh hd hsz inv.dbok key with
         hc | hz | hg
       · exact Or.inl hc
-      · exact Or.inr (Or.inl ⟨HRep.ne_nil hti.rep, hz⟩)
+      · exact Or.inr (Or.inl ⟨fun e => (nomatch e), hz⟩)
       · exact Or.inr (Or.inr hg)
 
 /-! ### a concrete persisted state (V1, a hashed 40-byte value, an inlined sub-branch) -/
